@@ -8,6 +8,15 @@ from harness.build import MachineryError
 from harness.tlc import run_tlc
 
 
+FAR = 2 ** 30
+
+
+def _i32(v):
+    """TLC's integers (and its JSON reader) are 32 bit.  The only numbers beyond that in a trace are instants "never" (a bound
+    that cannot be served is logged as the last representable date, thousands of years away): one value for all of them."""
+    return FAR if v >= FAR else (-FAR if v <= -FAR else v)
+
+
 def digest_events(rec):
     """Event digest of a trace record as lists of ints (task/resource indices, slots, ticks, dates)."""
     codes = {"Prepare": 1, "Modes": 2, "PreMilestone": 3, "Pick": 4, "Begin": 5, "Select": 6, "Book": 7, "OffsetMark": 8,
@@ -17,14 +26,14 @@ def digest_events(rec):
         row = [codes.get(e["ev"], 0)]
         for k in ("task", "res", "slot", "secsT", "usedT", "keptT", "cursor", "offset", "start", "end", "date"):
             v = e.get(k)
-            row.append(v if isinstance(v, int) and not isinstance(v, bool) else -7)
+            row.append(_i32(v) if isinstance(v, int) and not isinstance(v, bool) else -7)
         row.append(1 if e.get("ok") else 0)
         out.append(row)
     return out
 
 
 def finals_of(rec_final):
-    return [{"sched": bool(f["sched"]), "start": int(f["start"]), "end": int(f["end"])} for f in rec_final]
+    return [{"sched": bool(f["sched"]), "start": _i32(int(f["start"])), "end": _i32(int(f["end"]))} for f in rec_final]
 
 
 RELATE_CHUNK = 4000       # obligations per TLC run (a quarter of a million in one run neither fit the heap nor the time limit)
@@ -54,6 +63,9 @@ def decide(obligations, timeout=1800):
                 f.write(json.dumps({"id": o["id"], "shift": int(o.get("shift", 0)), "left": o["left"], "right": o["right"],
                                     "cmpEvents": cmp_ev, "levs": o.get("levs") or [], "revs": o.get("revs") or []}) + "\n")
         res = run_tlc("Relate", "Relate.cfg", env_extra={"REL_FILE": path}, timeout=timeout)
+        if res.error and os.environ.get("VERIF_KEEP_FAILED"):
+            import shutil
+            shutil.copy(path, os.environ["VERIF_KEEP_FAILED"])
     finally:
         os.unlink(path)
     if res.error:
